@@ -75,12 +75,7 @@ func C17(c *Ctx) {
 			}
 		}
 		// ---- R1
-		n := c.reportLockAccesses("C17-R1", la, ti.pkg, ti.timersT, ti.mapField, ti.lock, func(f *ssa.Function) string {
-			if f.Name() == "NewTimers" {
-				return "constructor: not shared yet"
-			}
-			return ""
-		})
+		n := c.reportLockAccesses("C17-R1", la, ti.pkg, ti.timersT, ti.mapField, ti.lock, nil)
 		if n < 4 {
 			c.R.Break("C17-R1: expected accesses of %s.%s.%s, found %d", ti.pkg, ti.timersT, ti.mapField, n)
 		}
@@ -401,12 +396,7 @@ func C17(c *Ctx) {
 	sioFns := c.P.FuncsIn("sio")
 	if len(sioFns) > 0 {
 		la := lockset.New(sioFns)
-		c.reportLockAccesses("C17-R1", la, "sio", "Crew", "changed", "sio.Crew.Mutex", func(f *ssa.Function) string {
-			if f.Name() == "init" && f.Signature.Recv() != nil {
-				return "crew initialisation: not shared yet"
-			}
-			return ""
-		})
+		c.reportLockAccesses("C17-R1", la, "sio", "Crew", "changed", "sio.Crew.Mutex", nil)
 		// emitter: the function literal stored as the timers' Emitter in Crew.init
 		if initF := c.fn("sio", "Crew", "init"); initF != nil {
 			var em *ssa.Function
